@@ -12,7 +12,7 @@ OBS += [
  Ob(['C20'], 'frame_json_strings', 'jd_hook', 'harness/jd_str.c', 'h_pqs', defs=['UNIT_H="jd_hook.h"', 'NB=7', 'PREFIX_U=1'], unwind=10, lunwind=[(r'parseQuotedString.*\.1$', 11)], fs='none', cap=400, hunwind=36, validate=2,
     desc='store hook while a JSON string with \\u escapes (surrogates included) is scanned: no store into a global (e.g. a static code-point accumulator)', bound='as pqs_u6'),
  Ob(['C20'], 'frame_json_leafs', 'jd_hook', 'harness/jd_leaf.c', 'h_keyword', defs=['UNIT_H="jd_hook.h"', 'NB=6'], unwind=8, fs='none', cap=200, hunwind=24, validate=2, desc='store hook on keyword scanning', bound='as keyword'),
- Ob(['C20'], 'frame_msgpack_ints', 'mpd_hook', 'harness/mpd.c', 'h_md_variant', defs=['UNIT_H="mpd_hook.h"', 'NB=10', 'FAMILY=1'], unwind=13, fs='none', cap=400, hunwind=20, validate=2,
+ Ob(['C20'], 'frame_msgpack_ints', 'mpd_hook', 'harness/mpd.c', 'h_md_variant', defs=['UNIT_H="mpd_hook.h"', 'NB=9', 'FAMILY=1'], unwind=12, fs='none', cap=900, hunwind=20, validate=2,
     desc='store hook while MessagePack integers of every width are decoded: no store into a global (e.g. a static scratch buffer)', bound='as md_variant_ints'),
  Ob(['C20'], 'frame_msgpack_floats_str', 'mpd_hook', 'harness/mpd.c', 'h_md_variant', defs=['UNIT_H="mpd_hook.h"', 'NB=8', 'FAMILY=3'], unwind=11, fs='none', cap=400, hunwind=20, validate=2,
     desc='store hook while MessagePack strings are decoded', bound='as md_variant_str'),
